@@ -122,6 +122,8 @@ pub fn run_history(seed: u64) -> Outcome {
         let op = rng.below(10);
         // snapshot of the model before the op (for the fault case)
         let before = fexp.clone();
+        let pre_img: Vec<u8> = (&*buffer).to_vec();
+        let flushed_before = flushed;
         let mut applied: Vec<(usize, Vec<u8>)> = Vec::new(); // (absolute offset, data) in order
         let res: Result<(), String>;
         if op < 4 {
@@ -197,22 +199,31 @@ pub fn run_history(seed: u64) -> Outcome {
                     break;
                 }
                 fault_hit = true;
-                // abort case: the model before the op plus a PREFIX of the op's writes
+                // abort case: the model before the op plus a PREFIX of the op's writes (the
+                // statement does not fix the order of the slot write and the append)
                 let mut ok = false;
-                let mut cand = before.clone();
-                if real == cand {
-                    ok = true;
+                let mut orders: Vec<Vec<(usize, Vec<u8>)>> = vec![applied.clone()];
+                if applied.len() == 2 {
+                    // append first (image as it was before the slot was set), then the slot
+                    orders.push(vec![(start as usize + flushed_before, pre_img[flushed_before..].to_vec()), applied[0].clone()]);
                 }
-                'outer: for (at, data) in &applied {
-                    for k in 1..=data.len() {
-                        let mut c2 = cand.clone();
-                        write_at(&mut c2, *at, &data[..k]);
-                        if real == c2 {
-                            ok = true;
-                            break 'outer;
-                        }
+                'orders: for order in &orders {
+                    let mut cand = before.clone();
+                    if real == cand {
+                        ok = true;
+                        break;
                     }
-                    write_at(&mut cand, *at, data);
+                    for (at, data) in order {
+                        for k in 1..=data.len() {
+                            let mut c2 = cand.clone();
+                            write_at(&mut c2, *at, &data[..k]);
+                            if real == c2 {
+                                ok = true;
+                                break 'orders;
+                            }
+                        }
+                        write_at(&mut cand, *at, data);
+                    }
                 }
                 if !ok {
                     failure = Some(format!("after injected failure in `{}`: destination is neither the previous content nor a prefix of the operation's writes ({})", ops.last().unwrap(), first_diff(&real, &before)));
